@@ -225,6 +225,7 @@ type c04Gen struct {
 	alpha []byte
 	keys  [][]byte
 	ckeys [][]byte
+	pool  [][]byte
 }
 
 func (g *c04Gen) rndKey(maxLen int) []byte {
@@ -265,7 +266,12 @@ func (g *c04Gen) probe() []byte {
 	return k
 }
 
+// values come mostly from a small pool that is re-used across main-trie keys, child-trie keys and
+// snapshot steps (equal large values at different keys: their database rows differ by partial key)
 func (g *c04Gen) val() []byte {
+	if len(g.pool) > 0 && g.r.Chance(7, 10) {
+		return g.pool[g.r.Intn(len(g.pool))]
+	}
 	switch g.r.Intn(10) {
 	case 0:
 		return []byte{}
@@ -349,8 +355,20 @@ func c04GenLine(r *vhRng) string {
 			g.ckeys = append(g.ckeys, []byte{byte(0xc0 + i)})
 		}
 	}
+	np := 1 + r.Intn(4)
+	g.pool = append(g.pool, r.Bytes(r.Pick(33, 40, 64, 80)))
+	for i := 1; i < np; i++ {
+		switch r.Intn(4) {
+		case 0:
+			g.pool = append(g.pool, r.Bytes(r.Pick(33, 64, 100)))
+		case 1:
+			g.pool = append(g.pool, r.Bytes(r.Pick(31, 32)))
+		default:
+			g.pool = append(g.pool, []byte{byte(1 + r.Intn(250))})
+		}
+	}
 	ops := []string{}
-	if r.Bool() {
+	if r.Chance(2, 3) {
 		ops = append(ops, "ver h0 1")
 	}
 	ops = g.mutate(ops, 0, 1+r.Intn(10))
